@@ -95,7 +95,9 @@ class Conv:
         if k == "IndexExpr":
             return "(EIndex %s %s %s)" % (self.expr(e["x"]), self.expr(e["y"]), cpos(e["lbrack"]))
         if k == "SliceExpr":
-            return '(EUnsup "slice")'
+            o = lambda x: "(Some %s)" % self.expr(x) if x else "None"
+            x = self.expr(e["x"])
+            return "(ESlice %s %s %s %s %s)" % (x, o(e.get("lo")), o(e.get("hi")), o(e.get("step")), cpos(e["lbrack"]))
         if k == "DotExpr":
             return "(EDot %s %s %s)" % (self.expr(e["x"]), cstr(e["name"]), cpos(e["dot"]))
         if k == "CallExpr":
@@ -397,9 +399,10 @@ def shard_eval(ctx, tag, items, want, per=40, workers=8):
 def run(ctx):
     ctx.proofs()
     hx = ctx.go_build("c01")
-    n = 240 if ctx.quick() else 4000
-    cases = ctx.jsonl([hx, "gen", "-seed", str(ctx.seed), "-n", str(n), "-frag", "50"], timeout=600)
-    ctx.log("harness produced %d programs" % len(cases))
+    n = 120 if ctx.quick() else 3000
+    corpus = ctx.jsonl([hx, "run"], timeout=300, input=corpus_lines())
+    cases = corpus + ctx.jsonl([hx, "gen", "-seed", str(ctx.seed), "-n", str(n), "-frag", "50"], timeout=600)
+    ctx.log("harness produced %d programs (%d from the hand-written corpus)" % (len(cases), len(corpus)))
     dist = {"static-error": 0, "panic": 0, "timeout": 0, "run": 0, "untranslatable": 0}
     feats = {}
     items = []
@@ -457,3 +460,282 @@ def run(ctx):
         "built-in functions and operators on values are a shared oracle (Values.v), compared with the real ones only through ties (b) and (c)",
         "source positions identify operations; error messages are not compared",
     ])
+
+
+# ---------------------------------------------------------------- hand-written corpus (always run first)
+ALLON = {"set": True, "while": True, "recursion": True, "toplevel": True}
+ALLOFF = {"set": False, "while": False, "recursion": False, "toplevel": False}
+CORPUS = [
+    ("call-argument-order", ALLOFF, """
+def f(a, b, *args, c=0, **kwargs):
+    return (a, b, c, args, kwargs)
+x = f(trace(1), trace(2), c=trace(3), *[trace(4)], **{"z": trace(5)})
+trace(x)
+y = f(trace("p"), b=trace("q"), c=trace("r"))
+trace(y)
+trace(f(*[trace(1), trace(2)], **{"k": trace(3)}))
+"""),
+    ("augmented-index-evaluated-once", ALLOFF, """
+def g():
+    x = [1, 2, 3]
+    def i():
+        trace("i")
+        return 1
+    x[i()] += 10
+    x[trace(0)] *= 3
+    x[trace(2)] -= trace(1)
+    return x
+trace(g())
+d = {"a": [1]}
+def h():
+    d[trace("a")] += [2]
+    d[trace("a")][trace(0)] += 5
+    return d
+trace(h())
+"""),
+    ("or-and-yield-operand", ALLOFF, """
+trace(0 or "x", 1 or "x", [] or (), [0] or 2, None or 0)
+trace(0 and "x", 1 and "x", [] and 1, [0] and 2, "s" and None)
+def t(v):
+    trace("eval", v)
+    return v
+trace(t(0) or t(2) or t(3), t(1) and t(0) and t(5))
+trace(t(0) and t(1), t(3) or t(4))
+trace((t(1) or t(2)) if (t(0) and t(9)) else (t([]) or t("z")))
+trace(not t(0), not t([1]) or t(7))
+"""),
+    ("comprehension-variables-are-block-local", ALLOFF, """
+x = 1
+y = [x for x in [2, 3]]
+trace(x, y)
+def f(x):
+    z = [x * 2 for x in [x, x + 1]]
+    w = {x: y for x, y in [(1, 2)] for y in [y, 5]}
+    trace(x, z, w)
+    k = 7
+    q = [k for k in range(3) if k != 1]
+    return (x, k, q)
+trace(f(10))
+def g():
+    i = "outer"
+    r = [[i for i in range(j)] for j in range(3)]
+    return (i, r)
+trace(g())
+trace([a + b for a in ["a", "b"] for b in [a, "c"]])
+"""),
+    ("closures-capture-variables", ALLOFF, """
+def mk():
+    x = 1
+    def get():
+        return x
+    x = 2
+    fs = []
+    for i in [10, 20]:
+        fs.append(lambda: i + x)
+    x = 3
+    return (get, fs)
+g, fs = mk()
+trace(g(), [f() for f in fs])
+def counter():
+    n = [0]
+    def inc():
+        n[0] += 1
+        return n[0]
+    return inc
+c = counter()
+trace(c(), c(), c())
+def late():
+    def inner():
+        return v
+    v = "assigned later"
+    return inner()
+trace(late())
+def shadow(len):
+    f = lambda: len
+    len = 5
+    return f()
+trace(shadow(1), len([1, 2]))
+trace([f() for f in [lambda: z for z in [1, 2, 3]]])
+"""),
+    ("break-continue-return-in-nested-loops", ALLON, """
+def f():
+    out = []
+    for i in range(4):
+        for j in range(4):
+            if j == 1:
+                continue
+            if j == 3:
+                break
+            out.append((i, j))
+        if i == 2:
+            continue
+        out.append(i)
+        if i == 3:
+            return out
+    return "fell off"
+trace(f())
+def w():
+    n = 0
+    r = []
+    while n < 5:
+        n += 1
+        k = 0
+        while True:
+            k += 1
+            if k < n:
+                continue
+            break
+        if n == 2:
+            continue
+        r.append((n, k))
+        if n == 4:
+            break
+    return r
+trace(w())
+for a in [1, 2, 3]:
+    if a == 2:
+        continue
+    for b in [5, 6]:
+        if b == 6:
+            break
+        trace(a, b)
+"""),
+    ("iterators-released-after-loops", ALLOFF, """
+def f(l):
+    for x in l:
+        if x == 2:
+            break
+    l.append(9)
+    for x in l:
+        for y in l:
+            pass
+    l.append(10)
+    return l
+trace(f([1, 2, 3]))
+def g(l):
+    for x in l:
+        if x == 2:
+            return x
+    return None
+m = [1, 2, 3]
+trace(g(m))
+m.append(4)
+trace(m)
+def h(l):
+    for x in l:
+        l.append(x)
+    return l
+trace("before")
+trace(h([1]))
+"""),
+    ("non-commutative-operators-with-constant-operands", ALLOFF, """
+def f(x, s, l):
+    trace(10 - x, x - 10, 7 // x, x // 7, 7 % x, x % 7, 2 < x, x < 2, 1 << x, x << 1, 100 >> x)
+    trace("a" + s, s + "a", "a" + "b" + s, s + "a" + "b", "a" + s + "b" + "c")
+    trace([1] + l, l + [1], [1] + [2] + l, l + [1] + [2], (1,) + (2,) + tuple(l))
+    trace(3 - 2 - x, 3 - (2 - x), 2 * 3 + x, "x" * 2 + s, 2 in l, x in [1, 2, 3], "a" in s, s in "abc")
+    trace(5 >= x, 5 <= x, 5 == x, 5 != x, 5 > x)
+f(3, "z", [2])
+"""),
+    ("scoping-of-globals-predeclared-universal", ALLOFF, """
+def f():
+    return len([1, 2, 3])
+trace(f())
+def g():
+    trace = 5
+    return trace
+trace(g())
+def h():
+    if False:
+        y = 1
+    return y
+def k():
+    return later
+trace(type(len), type(trace))
+later = "defined"
+trace(k())
+trace(h())
+"""),
+    ("use-before-definition-at-top-level", ALLOFF, """
+trace(1)
+trace(len([1]))
+x = len
+trace(x("ab"))
+len = 3
+"""),
+    ("defaults-evaluated-at-definition", ALLOFF, """
+def mk(n):
+    def f(a, b=trace(n), c=[]):
+        c.append(a)
+        return (a, b, c)
+    return f
+f1 = mk(1)
+f2 = mk(2)
+trace(f1(0), f1(1), f2(5), f1(2, c=[9]))
+def kw(a, *, b, c=trace("dc")):
+    return (a, b, c)
+trace(kw(1, b=2), kw(1, c=3, b=4))
+trace(kw(1))
+"""),
+    ("unpacking-and-sequence-targets", ALLOFF, """
+def f():
+    a, (b, c) = 1, [2, 3]
+    [d, e] = (a + b, c)
+    l = [0, 0]
+    l[0], l[1] = e, d
+    for i, (j, k) in [(1, (2, 3)), (4, (5, 6))]:
+        trace(i, j, k)
+    x, y = 1, 2
+    x, y = y, x
+    return (a, b, c, d, e, l, x, y)
+trace(f())
+def g():
+    a, b = [1, 2, 3]
+trace(g())
+"""),
+    ("recursion-check-and-recursion", {"set": False, "while": False, "recursion": True, "toplevel": False}, """
+def fact(n):
+    if n <= 1:
+        return 1
+    return n * fact(n - 1)
+trace(fact(10), fact(25))
+def even(n):
+    return True if n == 0 else odd(n - 1)
+def odd(n):
+    return False if n == 0 else even(n - 1)
+trace(even(10), odd(7))
+"""),
+    ("recursion-rejected-without-option", ALLOFF, """
+def fact(n):
+    if n <= 1:
+        return 1
+    return n * fact(n - 1)
+trace(fact(1))
+trace(fact(3))
+"""),
+    ("load-binds-file-locals", ALLOFF, """
+load("m.star", "a", bb="b")
+def f():
+    return (a, bb)
+trace(a, bb, f())
+c = a + 1
+trace(c)
+"""),
+    ("dict-displays-and-comprehensions", ALLOFF, """
+def f():
+    d = {trace("k1"): trace(1), trace("k2"): trace(2)}
+    e = {k: v * 2 for k, v in d.items() if v > 1}
+    d["k3"] = 3
+    d[trace("k1")] += 10
+    trace(d, e, "k1" in d, "zz" in d, d.get("zz", 0), [k for k in d])
+    return {1: 2, 1: 3}
+trace(f())
+"""),
+]
+
+
+def corpus_lines():
+    out = []
+    for i, (name, opts, src) in enumerate(CORPUS):
+        out.append(json.dumps({"id": 100000 + i, "src": src.lstrip("\n"), "opts": opts, "features": ["corpus:" + name], "fragment": False}))
+    return "\n".join(out) + "\n"
